@@ -1,0 +1,31 @@
+//go:build verif
+
+package node
+
+import (
+	"github.com/youzan/ZanRedisDB/common"
+)
+
+// Accessors for the data-layer verification harness (/verif, group Data). Built only with -tags verif.
+
+// VerifReadNode returns a KVNode without raft that shares the store of the given kv state machine
+// and has the production redis handlers registered, so that read commands can be run through the
+// real handlers (GetHandler / GetMergeHandler). Write handlers of this node must not be called
+// (they would propose to a raft node that does not exist).
+func VerifReadNode(sm StateMachine) *KVNode {
+	k, ok := sm.(*kvStoreSM)
+	if !ok {
+		return nil
+	}
+	mc := k.machineConfig
+	nd := &KVNode{
+		store:         k.store,
+		sm:            sm,
+		w:             k.w,
+		router:        common.NewCmdRouter(),
+		ns:            k.fullNS,
+		machineConfig: &mc,
+	}
+	nd.registerHandler()
+	return nd
+}
